@@ -172,6 +172,12 @@ func main() {
 	for _, b := range [][4]float64{{1, 1, 3, 3}, {1.5, 1.5, 2.5, 2.5}, {0, 0, 4, 4}, {0.5, 1, 3.5, 2}, {2, 0, 4, 2}, {0, 2, 2, 4}, {1, 0.5, 2, 3.5}, {2, 2, 3, 3}, {0.5, 0.5, 3.5, 3.5}, {1, 1, 4, 4}, {0, 1.5, 4, 2.5}, {1.5, 0, 2.5, 4}} {
 		boxes = append(boxes, orb.Bound{Min: orb.Point{b[0], b[1]}, Max: orb.Point{b[2], b[3]}})
 	}
+	// general-position boxes (no lattice vertex on an edge, no lattice segment through a corner): square-ish, tall, wide
+	general := []orb.Bound{
+		{Min: orb.Point{1.3127, 1.1533}, Max: orb.Point{2.9181, 2.5419}},
+		{Min: orb.Point{1.6127, 0.6533}, Max: orb.Point{2.4181, 3.4419}},
+		{Min: orb.Point{0.6213, 1.6127}, Max: orb.Point{3.4719, 2.4181}},
+	}
 	if !r.Quick() {
 		for x0 := 0; x0 < 4; x0++ {
 			for x1 := x0 + 1; x1 <= 4; x1++ {
@@ -242,6 +248,13 @@ func main() {
 		r.Explore(fmt.Sprintf("rings-%d", n), fmt.Sprintf("%d boxes x all 25^%d closed vertex lists; region on the query lattice, vertices in box, closure, area additivity over every half-grid split, inside-unchanged, disjoint-nil, generic entry point", len(boxes), n),
 			mc.Opts{MaxDev: -1, Split: 2}, ringPart(n))
 	}
+	nGen := ev.Pick(r, 4, 5)
+	saved := boxes
+	boxes = general
+	r.Explore("rings-general-boxes", fmt.Sprintf("3 general-position boxes (square-ish, tall, wide) x all 25^3..25^%d closed vertex lists: same oracle", nGen), mc.Opts{MaxDev: -1, Split: 2}, func(c *mc.Ctx) {
+		ringPart(3 + c.Choose(nGen-2))(c)
+	})
+	boxes = saved
 	// polygons, multi-polygons, collections, mvt layer clip: composition over rings
 	outerCat := [][]int{{0, 4, 24, 20}, {6, 8, 18, 16}, {0, 4, 24}, {20, 24, 4, 0}, {0, 2, 12, 14, 24, 20}}
 	mkRing := func(idx []int) orb.Ring {
